@@ -12,12 +12,13 @@ from pysym import core
 from pysym.core import prove
 from pysym.harness import harness
 
-OPTS = ('none', 'bind', 'global', 'global+bind', 'nonlocal', 'nonlocal+bind')
+OPTS = ('none', 'bind', 'global', 'global+bind', 'nonlocal', 'nonlocal+bind', 'other-global+bind')
 KINDS = ('def', 'class')
 # other statements that make x a local of the scope they stand in (language reference 4.2.1 "binding of names"); `real`: an object is bound
 FORMS = {
     'aug': ('x += 1', False), 'ann': ('x: int', False), 'ann-value': ('x: int = 1', True), 'del': ('del x', False),
-    'for': ('for x in []: pass', True), 'with': ('with cm() as x: pass', True), 'except': ('try: pass\nexcept E as x: pass', False),
+    'for': ('for x in []: pass', True), 'with': ('with cm() as x: pass', True), 'with-tuple': ('with cm() as (x, _o): pass', True),
+    'with-starred-list': ('with cm() as [_o, *x]: pass', True), 'for-tuple': ('for _o, (x, _p) in []: pass', True), 'except': ('try: pass\nexcept E as x: pass', False),
     'import': ('import x', True), 'import-as': ('import os as x', True), 'from-import': ('from os import x', True),
     'def': ('def x(): pass', True), 'class': ('class x: pass', True), 'walrus': ('print((x := 1))', True),
     'tuple': ('(x, _o) = 1, 2', True), 'match': ('match p:\n    case x: pass', True), 'match-as': ('match p:\n    case str() as x: pass', True),
@@ -43,6 +44,8 @@ def render(chain, module_binds, leaf_lambda):
         kind, opt = chain[i]
         sid = i + 1
         headers[emit(ind, ('def f%d(p%d):' % (sid, sid)) if kind == 'def' else ('class C%d:' % sid))] = sid
+        if opt.startswith('other-global'):
+            emit(ind + 1, 'global zz_other')        # a declaration about another name: x stays what it would be without it
         if opt.startswith('global'):
             emit(ind + 1, 'global x')
         if opt.startswith('nonlocal'):
@@ -211,7 +214,7 @@ def check_module(text, chain, reads, binds, headers, path):
         core.RUN.concretise = None
 
 
-@harness(['C05', 'C01'], 'supp.nast.extract_scope + Flow.names_at [whole modules against the compiler\'s symbol tables]',
+@harness(['C05', 'C01', 'C03'], 'supp.nast.extract_scope + Flow.names_at [whole modules against the compiler\'s symbol tables]',
          bounded='every module  [x = 0]? ; use(x) ; S1 ; use(x)  where S1 is a chain of up to 3 nested def / class scopes (optionally ending in a '
                  'lambda with or without a parameter, in a def or a class body), each level with one of {nothing, x = .., global x, global x + binding, nonlocal x, nonlocal x + binding} and a read '
                  'of x before the binding, after it and after the nested scope; only modules the compiler accepts')
@@ -240,7 +243,7 @@ def scopes_against_symtable(run):
     core.explore(lambda: None, lambda p, out: go(p))
 
 
-@harness(['C05', 'C01'], 'supp.nast.extract_scope + Flow.names_at [every statement that makes a name local, against the compiler\'s symbol tables]',
+@harness(['C05', 'C01', 'C03'], 'supp.nast.extract_scope + Flow.names_at [every statement that makes a name local, against the compiler\'s symbol tables]',
          bounded='modules  [x = 0]? ; use(x) ; S1 ; use(x)  with S1 a chain of 1-2 nested def / class scopes where one level holds one of 21 '
                  'binding statements for x (augmented assignment, bare and valued annotation, del, for, with, except, except*, imports, def, '
                  'class, walrus, tuple target, match captures, walrus in a comprehension) and the other level one of {nothing, x = .., global x}')
